@@ -454,3 +454,11 @@ func init() {
 		},
 		Rule: "template syntax trees of nesting depth<=3 (text, variables, escaped variables, comments, sections and inverted sections in every spelling: # / #if / ^ / #unless, closed by name, /if or /unless, two or three braces on either tag, variables named if/unless, names a B name x_1 CJK e-acute a-b N9) x variable maps (present / absent / empty values, keys in any letter case, values with quotes, slashes, control characters); expected = reference renderer in the harness; plus every concatenation of up to 3 (quick) / 5 (thorough, sampled) template lexemes {{ }} {{{ }}} # / ^ ! if unless a B space text ' \" { } . and random longer ones for the accept/reject decision; non-trivial = at least two nodes / three lexemes; distinct by input hash"})
 }
+
+func mparsersNames(text string) []string {
+	p := mparsers.NewMustacheParser()
+	if p.SetTemplate(text) != nil {
+		return nil
+	}
+	return p.VariableNames()
+}
